@@ -137,11 +137,13 @@ theorem lastOffs_append_singleton : ∀ (os : List (List Nat)) (prev last : List
 
 /-- **Sampling splitting theorem** (size = total): for every non-decreasing sequence of splitter values the
 concatenation of the per-thread stable merges is the stable k-merge of the whole input. -/
-theorem sampling_concat_eq_kMerge {lt : Int → Int → Bool} (hlt : StrictWeak lt) {runs : List (List Elem)}
-    (hw : WellTagged runs) (hk : KeySorted lt runs) (vs : List Int) (hvs : vs.Pairwise (fun a b => lt b a = false)) :
+theorem sampling_concat_eq_kMerge {lt : Int → Int → Bool} {tl : Elem → Elem → Prop} (hlt : StrictWeak lt)
+    (htl : TagOrder tl) {runs : List (List Elem)} (hg : GoodRuns lt tl runs) (vs : List Int)
+    (hvs : vs.Pairwise (fun a b => lt b a = false)) :
     ((chunkRows runs (List.replicate runs.length 0) (samplingOffs lt runs vs)).map (fun row => kMerge lt row)).flatten =
       kMerge lt runs := by
-  have hc : runs.flatten.Pairwise (Cond lt tagLt) := cond_of_wellTagged hw
+  have hc : runs.flatten.Pairwise (Cond lt tl) := hg.cond
+  have hk : KeySorted lt runs := fun r hr => List.Pairwise.imp (fun hab => hab.1) (hg.inner r hr)
   have hchain : Chain (List.replicate runs.length 0) (samplingOffs lt runs vs) := by
     cases vs with
     | nil =>
@@ -152,15 +154,15 @@ theorem sampling_concat_eq_kMerge {lt : Int → Int → Bool} (hlt : StrictWeak 
       have := leAll_zero (ubOffs lt runs v)
       simp only [ubOffs, List.length_map] at this
       exact ⟨this, chain_sampling hlt runs vs v hvs⟩
-  have hcc := concat_chunks hlt tagOrder_tagLt hc (samplingOffs lt runs vs) (List.replicate runs.length 0) hchain
-    (crossOrdered_zero lt tagLt runs _)
+  have hcc := concat_chunks hlt htl hc (samplingOffs lt runs vs) (List.replicate runs.length 0) hchain
+    (crossOrdered_zero lt tl runs _)
     (by
       intro o ho
       rcases List.mem_append.mp ho with ho | ho
       · obtain ⟨v, _, rfl⟩ := List.mem_map.mp ho
-        exact ⟨by simp [ubOffs], crossOrdered_ub hlt tagLt hk v⟩
+        exact ⟨by simp [ubOffs], crossOrdered_ub hlt tl hk v⟩
       · simp at ho; subst ho
-        exact ⟨by simp [lens], crossOrdered_lens lt tagLt runs⟩)
+        exact ⟨by simp [lens], crossOrdered_lens lt tl runs⟩)
   rw [takes_zero_flatten] at hcc
   simp only [sortStable, List.foldr_nil, List.nil_append] at hcc
   unfold samplingOffs at hcc
